@@ -245,5 +245,29 @@ prop(
     assumptions=["MetaStore.Update is atomic"],
 )
 
+prop(
+    "C03",
+    lean_modules=["BloomVerif.Lemmas.Value", "BloomVerif.Props.C03"],
+    technique="Lean 4 proof (delivered value = JSON round trip for rows without duplicated keys; proved counterexample for the unguarded statement; scan-protocol order over pooled buffers) + differential comparison of every returned row + poisoned-pool concurrency run",
+    design_ref="DESIGN.md section 4 C03",
+    text="Partial. Value part: machine-checked that the delivered value (gjson: first binding of a key wins) equals the reference JSON round trip (encoding/json: last wins) for every row in which no object repeats a key, and that the unguarded statement is false "
+         "(witness with a duplicated key, replayed on the implementation and recorded as a known finding). Independence part: only protocol order is modelled (no view or copy after the buffer returned to the pool; deliveries come from copies); aliasing is a memory "
+         "property - the check runs 8 concurrent queries with every scan buffer overwritten on release (verif hook), deep-mutates every returned row and re-reads all rows.",
+    trusted_base=[KERNEL, AXIOMS, TDIFF, HOOKS + " (verifPoison in putScanBuffer)", "modelled, not verified: gjson Value(), encoding/json, strconv.ParseFloat (same parse on both sides), sync.Pool; invalid UTF-8 inside raw JSON is outside the model"],
+    assumptions=["rows whose marshaled form encoding/json can decode", "strings are valid UTF-8"],
+)
+
+prop(
+    "C27",
+    lean_modules=["BloomVerif.Props.C27"],
+    technique="Lean 4 proof by kernel evaluation over the regenerated table of stdout/stderr-capable call sites (finite quantifier) + nil-logger-discards fact + runtime capture of file descriptors 1 and 2 over failure histories",
+    design_ref="DESIGN.md section 4 C27",
+    text="Partial (third-party code is observed, not modelled). The table of every call in the package's non-test sources that can reach stdout/stderr (fmt.Print*, print/println, log.*, package-level slog.*, os.Stdout/os.Stderr) and the fact that a nil Logger "
+         "becomes the discard handler are regenerated from /repo on every run; the theorem `silent` states that every history writes nothing, proved by evaluating the table in the kernel. The harness runs histories with store failures, corrupt files, "
+         "files without filters, invalid regexes and Stop deadlines with fd 1/2 redirected to a capture file, which also covers the dependencies.",
+    trusted_base=[KERNEL, AXIOMS, "/verif/gen/go2lean writeSinks (go/ast scan; the list of sink forms is the trusted part)", TDIFF],
+    assumptions=["only the listed syntactic forms reach stdout/stderr from the package's own code (no reflection / unsafe tricks); dependencies are covered by the runtime capture only on the histories explored"],
+)
+
 # Properties not claimed, with the reason (kept current; see DESIGN.md).
 NOT_CLAIMED = {}
